@@ -74,6 +74,7 @@ def case_for(c, model, cid, witness=()):
         'reads': [[p, rd[0], rd[1], rd[2] if len(rd) > 2 else None] for p, rd in c.reads.items()],
         'witness': list(witness),
         'stubs': [_BYNAME[u].target for u in c.use if u in _BYNAME],
+        'stub_names': {_BYNAME[u].target: u for u in c.use if u in _BYNAME},
     }
 
 
